@@ -1093,14 +1093,17 @@ func runC09(p *core.Prog, r *core.Report) {
 				al, isAlloc := a.Val.(*ssa.Alloc)
 				okSrc, okPresence := false, false
 				var lookup *ssa.Call
+				var rewritten []string // other values stored into the recorded string: the text is no longer verbatim
 				if isAlloc {
 					st, _ := sx.CellStores(al)
 					for _, s := range st {
 						if e, ok := s.(*ssa.Extract); ok && e.Index == 0 {
 							if cc, ok := e.Tuple.(*ssa.Call); ok && (sx.CalleeName(cc) == "os.LookupEnv" || sx.CalleeName(cc) == "syscall.Getenv") {
 								okSrc, lookup = true, cc
+								continue
 							}
 						}
+						rewritten = append(rewritten, sx.ValPath(s))
 					}
 				}
 				why := "the recorded environment text does not come from os.LookupEnv (os.Getenv cannot tell an empty variable from an unset one: an empty CFG_* value would not count as mentioned and would not reset the field to its zero value)"
@@ -1143,6 +1146,10 @@ func runC09(p *core.Prog, r *core.Report) {
 					})
 				}
 				r.Check(okSrc && okPresence, "C09-R6", "EnvValue recorded iff the variable is present (in "+fnName(ref.Fn)+")", p.Pos(a.Instr.Pos()), "text from os.LookupEnv, recorded exactly when ok is true", why)
+				if okSrc {
+					sort.Strings(rewritten)
+					r.Check(len(rewritten) == 0, "C09-R6", "EnvValue is the environment text verbatim (in "+fnName(ref.Fn)+")", p.Pos(a.Instr.Pos()), "the recorded string is assigned only the result of os.LookupEnv", "the recorded string is also assigned "+strings.Join(rewritten, ", ")+": a field whose winning source is the environment no longer holds the variable's value as given (trimmed, unquoted, expanded or replaced text)")
+				}
 			}
 		}
 		if n == 0 {
